@@ -226,3 +226,70 @@ def rule_SG1(ctx, rep):
                 rep.bad('SG1', fb, f'{a} / {b}', f'array sibling deviates from the scalar protocol -- {d}', fb.node)
         else:
             rep.ok('SG1', fb, f'{a} / {b}', 'same events under equivalent conditions: ' + '; '.join(f'{k[0]} {k[1]}'.strip() for k in sorted(sa)), fb.node)
+
+
+# ---------------------------------------------------------------------------------- AW1
+RANDOM_SOURCES = ('_random', '_randoms', '_np_randoms')
+SECTYPE_CTORS = ('SecFxp', 'SecInt', 'SecFld', 'SecFlt')
+
+
+def rule_AW1(ctx, rep, scope=None):
+    """typestate of locally generated randomness: `_random` / `_randoms` / `_np_randoms` asked for *field* values return the values
+    themselves with PRSS but a Future without it (the contributions must first arrive), so on every path on which `options.no_prss`
+    may hold the result has to be awaited before anything else is done with it.  For every call site with a field-typed (or not
+    provably secure-typed) first argument: the result is bound to a name, and every use of that name that the call's own
+    definition can reach un-awaited is either the `await` itself or lies where `no_prss` is excluded.
+    scope 'np' / 'scalar' restricts the rule to the array / list protocols."""
+    from . import cond
+    model = ctx.model
+    n = 0
+    for k, fn in sorted(model.funcs.items()):
+        if fn.module != 'runtime' or fn.cls != 'Runtime':
+            continue
+        pm = None
+        for c in iter_nodes(fn.node):
+            if not (isinstance(c, ast.Call) and isinstance(c.func, ast.Attribute) and c.func.attr in RANDOM_SOURCES and norm(c.func.value) == 'self' and c.args):
+                continue
+            if scope == 'np' and c.func.attr != '_np_randoms':
+                continue
+            if scope == 'scalar' and c.func.attr == '_np_randoms':
+                continue
+            if fn.qualname.split('.')[-1] in RANDOM_SOURCES:
+                continue                      # _random wraps _randoms and tests for the Future itself
+            pm = pm or parents(fn.node)
+            t0 = sem.expand(fn, c.args[0], c, pm)
+            if isinstance(t0, ast.Call) and attr_tail(t0.func) in SECTYPE_CTORS:
+                continue                      # a secure type: placeholders of that type are returned in both modes
+            n += 1
+            par = pm.get(id(c))
+            if not (isinstance(par, ast.Assign) and par.value is c and len(par.targets) == 1 and isinstance(par.targets[0], ast.Name)):
+                rep.bad('AW1', fn, c, f'the result of self.{c.func.attr}({norm(c.args[0])}, ..) is used directly ({norm(par)[:70]}): without PRSS it is a Future that has to be '
+                        'awaited first (AttributeError / TypeError at every party when the runtime runs with --no-prss)')
+                continue
+            r = par.targets[0].id
+            bad = None
+            for u in iter_nodes(fn.node):
+                if not (isinstance(u, ast.Name) and u.id == r and isinstance(u.ctx, ast.Load)):
+                    continue
+                ds = astq.reaching_definitions(fn.node, r, u, pm)
+                if not any(d[0] is par for d in ds):
+                    continue
+                up = pm.get(id(u))
+                # the await itself: `await r`, `await self.gather(.., r, ..)`
+                awaited = isinstance(up, ast.Await) or (isinstance(up, ast.Call) and attr_tail(up.func) == 'gather' and isinstance(pm.get(id(up)), ast.Await))
+                cx = cond.context(fn, u, pm)
+                excluded = any('no_prss' in a for a in cond.refuted(cx))
+                # a later definition `r = await r` under no_prss in between takes over on the no_prss paths
+                taken_over = any(d[0] is not par and isinstance(d[0], ast.stmt) and astq.position(par) < astq.position(d[0]) < astq.position(u)
+                                 and any('no_prss' in a for a in cond.implied(cond.context(fn, d[0], pm)))
+                                 and any(isinstance(x, ast.Await) for x in ast.walk(d[0])) for d in ds)
+                if not (awaited or excluded or taken_over):
+                    bad = u
+                    break
+            if bad is not None:
+                st = astq.enclosing_stmt(bad, pm)
+                rep.bad('AW1', fn, c, f'{r} = self.{c.func.attr}({norm(c.args[0])}, ..) is used in `{norm(st)[:70]}` before it is awaited on the paths with options.no_prss: '
+                        'without PRSS it is a Future')
+            else:
+                rep.ok('AW1', fn, c, f'{r} is awaited under options.no_prss before its value is used')
+    return n
